@@ -20,7 +20,7 @@ theorem current_closed : closedUnder (sys current) codec certCurrent := by
   refine ⟨by decide +kernel, ?_⟩
   intro q hq
   simp only [certCurrent, List.mem_cons, List.mem_nil_iff, or_false] at hq
-  rcases hq with rfl | rfl | rfl | rfl | rfl | rfl | rfl | rfl | rfl | rfl | rfl | rfl | rfl | rfl | rfl | rfl | rfl | rfl | rfl | rfl | rfl | rfl | rfl | rfl | rfl | rfl | rfl | rfl | rfl | rfl | rfl | rfl | rfl | rfl | rfl | rfl | rfl | rfl | rfl | rfl | rfl | rfl | rfl | rfl | rfl | rfl | rfl | rfl | rfl | rfl | rfl | rfl | rfl | rfl | rfl | rfl | rfl | rfl | rfl | rfl | rfl | rfl | rfl | rfl
+  rcases hq with rfl | rfl | rfl | rfl | rfl | rfl | rfl | rfl | rfl | rfl | rfl | rfl | rfl | rfl | rfl | rfl
   · exact cuClosed0
   · exact cuClosed1
   · exact cuClosed2
@@ -37,60 +37,12 @@ theorem current_closed : closedUnder (sys current) codec certCurrent := by
   · exact cuClosed13
   · exact cuClosed14
   · exact cuClosed15
-  · exact cuClosed16
-  · exact cuClosed17
-  · exact cuClosed18
-  · exact cuClosed19
-  · exact cuClosed20
-  · exact cuClosed21
-  · exact cuClosed22
-  · exact cuClosed23
-  · exact cuClosed24
-  · exact cuClosed25
-  · exact cuClosed26
-  · exact cuClosed27
-  · exact cuClosed28
-  · exact cuClosed29
-  · exact cuClosed30
-  · exact cuClosed31
-  · exact cuClosed32
-  · exact cuClosed33
-  · exact cuClosed34
-  · exact cuClosed35
-  · exact cuClosed36
-  · exact cuClosed37
-  · exact cuClosed38
-  · exact cuClosed39
-  · exact cuClosed40
-  · exact cuClosed41
-  · exact cuClosed42
-  · exact cuClosed43
-  · exact cuClosed44
-  · exact cuClosed45
-  · exact cuClosed46
-  · exact cuClosed47
-  · exact cuClosed48
-  · exact cuClosed49
-  · exact cuClosed50
-  · exact cuClosed51
-  · exact cuClosed52
-  · exact cuClosed53
-  · exact cuClosed54
-  · exact cuClosed55
-  · exact cuClosed56
-  · exact cuClosed57
-  · exact cuClosed58
-  · exact cuClosed59
-  · exact cuClosed60
-  · exact cuClosed61
-  · exact cuClosed62
-  · exact cuClosed63
 
 /-- no state of the certificate is bad. -/
-theorem current_safe : safeOn codec (badPartial current) certCurrent := by
+theorem current_safe : safeOn codec (bad current) certCurrent := by
   intro q hq
   simp only [certCurrent, List.mem_cons, List.mem_nil_iff, or_false] at hq
-  rcases hq with rfl | rfl | rfl | rfl | rfl | rfl | rfl | rfl | rfl | rfl | rfl | rfl | rfl | rfl | rfl | rfl | rfl | rfl | rfl | rfl | rfl | rfl | rfl | rfl | rfl | rfl | rfl | rfl | rfl | rfl | rfl | rfl | rfl | rfl | rfl | rfl | rfl | rfl | rfl | rfl | rfl | rfl | rfl | rfl | rfl | rfl | rfl | rfl | rfl | rfl | rfl | rfl | rfl | rfl | rfl | rfl | rfl | rfl | rfl | rfl | rfl | rfl | rfl | rfl
+  rcases hq with rfl | rfl | rfl | rfl | rfl | rfl | rfl | rfl | rfl | rfl | rfl | rfl | rfl | rfl | rfl | rfl
   · exact cuSafe0
   · exact cuSafe1
   · exact cuSafe2
@@ -107,54 +59,6 @@ theorem current_safe : safeOn codec (badPartial current) certCurrent := by
   · exact cuSafe13
   · exact cuSafe14
   · exact cuSafe15
-  · exact cuSafe16
-  · exact cuSafe17
-  · exact cuSafe18
-  · exact cuSafe19
-  · exact cuSafe20
-  · exact cuSafe21
-  · exact cuSafe22
-  · exact cuSafe23
-  · exact cuSafe24
-  · exact cuSafe25
-  · exact cuSafe26
-  · exact cuSafe27
-  · exact cuSafe28
-  · exact cuSafe29
-  · exact cuSafe30
-  · exact cuSafe31
-  · exact cuSafe32
-  · exact cuSafe33
-  · exact cuSafe34
-  · exact cuSafe35
-  · exact cuSafe36
-  · exact cuSafe37
-  · exact cuSafe38
-  · exact cuSafe39
-  · exact cuSafe40
-  · exact cuSafe41
-  · exact cuSafe42
-  · exact cuSafe43
-  · exact cuSafe44
-  · exact cuSafe45
-  · exact cuSafe46
-  · exact cuSafe47
-  · exact cuSafe48
-  · exact cuSafe49
-  · exact cuSafe50
-  · exact cuSafe51
-  · exact cuSafe52
-  · exact cuSafe53
-  · exact cuSafe54
-  · exact cuSafe55
-  · exact cuSafe56
-  · exact cuSafe57
-  · exact cuSafe58
-  · exact cuSafe59
-  · exact cuSafe60
-  · exact cuSafe61
-  · exact cuSafe62
-  · exact cuSafe63
 
 /-- the certificate of the let-go connection system. -/
 theorem drain_closed : closedUnder (CliDrain.sys current) CliDrain.codec certDrain := by
@@ -171,16 +75,16 @@ theorem drain_safe : safeOn CliDrain.codec (CliDrain.bad current) certDrain := b
   exact drSafe0
 
 /-- the invariant: no reachable state of the current system is bad. -/
-theorem current_inv {s : St} (h : Reachable (sys current) s) : badPartial current s = false :=
+theorem current_inv {s : St} (h : Reachable (sys current) s) : bad current s = false :=
   safe_of_cert current_closed current_safe h
 
-theorem badPartial_false {p : Params} {s : St} (h : badPartial p s = false) :
+theorem bad_false {p : Params} {s : St} (h : bad p s = false) :
     badStale s = false ∧ badReuse s = false ∧ badOverflow s = false ∧ badPanic s = false ∧
     badTx s = false ∧ badAfterClose s = false ∧ badRecover s = false ∧ badHang p s = false ∧
-    badHandoff s = false ∧ (badStuck p s && !s.raced) = false := by
-  simp only [badPartial, Bool.or_eq_false_iff] at h
-  obtain ⟨⟨⟨⟨⟨⟨⟨⟨⟨h1, h2⟩, h3⟩, h4⟩, h5⟩, h6⟩, h7⟩, h8⟩, h9⟩, h10⟩ := h
-  exact ⟨h1, h2, h3, h4, h5, h6, h7, h8, h9, h10⟩
+    badHandoff s = false ∧ badStuck p s = false ∧ s.raced = false := by
+  simp only [bad, Bool.or_eq_false_iff] at h
+  obtain ⟨⟨⟨⟨⟨⟨⟨⟨⟨⟨h1, h2⟩, h3⟩, h4⟩, h5⟩, h6⟩, h7⟩, h8⟩, h9⟩, h10⟩, h11⟩ := h
+  exact ⟨h1, h2, h3, h4, h5, h6, h7, h8, h9, h10, h11⟩
 
 /-- no reachable state of a let-go connection is bad. -/
 theorem drain_inv {d : Option St} (h : Reachable (CliDrain.sys current) d) : CliDrain.bad current d = false :=
